@@ -23,7 +23,10 @@ type Obligation struct {
 	MustFail bool
 	Note     string
 	Only     []string // property ids this obligation is reported for (empty = every property of the contract)
-	split    []*Obligation
+	// Stem is the file stem of the obligation's SMT file, unique within the function's directory (allocated by
+	// verifyFunction before the obligations are solved concurrently). Empty: sanitizeFile(Name).
+	Stem  string
+	split []*Obligation
 }
 
 func (o *Obligation) SetOnly(only []string) {
